@@ -83,6 +83,16 @@ CHECKS = {
             "entry equals its own table. Real runs in the four switch combinations and moments of the convolved labels anchor the rest.",
             "Trusted: TLC, eko's flavour-sector projectors, numpy, scipy.quad. Domain assumption of the code's tables: LO coefficients have "
             "no gluon component. The N3LO muF terms do not exist in the code (pto<=2 for muF, as the property states).", "DESIGN.md 7/C05"),
+    "C15": ("model_checking",
+            "TLC RoundTripIdentity over all output shapes x dump/load sequences (OutputIO.tla) + every TLC-enumerated (shape, sequence) "
+            "executed on real Output objects with bitwise comparison after every cycle + TLC trace validation",
+            "TLC checks that any sequence of tar/YAML cycles (depth <= 3, thorough 4) keeps the content of every output shape (SF / XS / "
+            "None / empty observables, unsorted key lists, value classes, list vs ndarray metadata left behind by the loaders); each "
+            "enumerated pair is executed with the real dump_tar/load_tar/dump_yaml/load_yaml and the loaded object is compared with the "
+            "ORIGINAL after every cycle: kinematics, key order, value and error bytes (signed zeros, subnormals, 17-digit, huge, negative "
+            "errors), grid, metadata, cards and toy-PDF predictions; real NNLO / TMC / cross-section outputs go through the same sequences.",
+            "Trusted: TLC, numpy tobytes, python == on cards. The order of observables inside the container is not part of the content.",
+            "DESIGN.md 7/C15"),
 }
 
 PENDING = {}
